@@ -462,6 +462,14 @@ def eval_case(item, pattern, opt, geo=None, cache=None):
            "branch_on_boundary": flags[2]}
     if not in_scope(tips, rho, opt, flags):
         return None
+    if item["placement"] == "default" and ob.material_coincidences(
+            tips, br, origin, bounds, lam, mu, psi, rho, rem if opt["removal"] else None):
+        # The equidistant boundaries are computed by the implementation itself (cumulative sum of
+        # origin/m); when one of them falls on an event time in exact arithmetic the two floating
+        # point numbers may differ by one ulp in either direction, so the side of the event (or
+        # whether a tip is rho-sampled) is not determined by the input.  Exact coincidences are
+        # explored with explicitly given times instead.
+        return None
     bad = []
     nev = 1
     v, err = impl_skyline(tips, br, origin, bounds, lam, mu, psi, rho, rem, opt)
@@ -723,7 +731,9 @@ def bdsk_json_case(item, combo, geo=None):
         b = bounds if combo["times"] != "absent" else [origin * k / m for k in range(1, m)]
         acc = ob.acceptable(tips, br, origin, b, lam, mu, psi, rho, None, surv)
         const, _ = anchor_const(n, False)
-        if const is not None and not any(close(got - const, a) for a in acc):
+        if combo["times"] == "absent" and ob.material_coincidences(tips, br, origin, b, lam, mu, psi, rho):
+            pass  # an event on the implementation's own equidistant grid: side undetermined (see eval_case)
+        elif const is not None and not any(close(got - const, a) for a in acc):
             bad.append(("json_value", f"BDSKModel() = {got!r}; master equations give {acc} (+ constant {const:.6g})"))
     return bad, sig, 1
 
@@ -940,7 +950,9 @@ def run(run):
         "an event lying exactly on a boundary across which a rate or rho changes may take either one-sided limit; "
         "a tip lying on a boundary with rho > 0 is rho-sampled",
         "excluded as undefined: fully contemporaneous trees with rho = 0 at the present; removal probability "
-        "together with rho-sampled tips before the present; rho = 1 at an internal boundary; no origin",
+        "together with rho-sampled tips before the present; rho = 1 at an internal boundary; no origin; with "
+        "times=None, an event falling (in exact arithmetic) on an internal equidistant boundary across which "
+        "something changes (the implementation's own grid is only accurate to one ulp)",
         "m <= 3: every merge pattern; m = 4: fixed family of 16 rate/rho patterns; m >= 5: 8 patterns x 8 option "
         "combinations (every option value occurs) and, for n = 4, no partial tie patterns; quick tier: no partial "
         "tie patterns for n = 4 at m = 3, rho = 1 at the present only with rho = 0 elsewhere at m = 3",
